@@ -41,7 +41,7 @@
 (*     O4  a value list in the usage of a template that carries its own divisor (symmetric case, divisor    *)
 (*         on a value list template, is rejected)                                                          *)
 (*     O5  both a field name and template:name; a field name on a template with several fields             *)
-(*     O6  part "s" for a master / broadcast destination; several types in one field (a;b); chained ids     *)
+(*     O6  a part other than "m" for a master / broadcast destination; several types in one field (a;b); chained ids     *)
 (*         with explicit lengths; lenient number spellings; unknown column names; several * groups          *)
 (* Texts are sequences of character codes.                                                                  *)
 EXTENDS Naturals, Integers, Sequences, FiniteSets, SequencesExt
@@ -235,8 +235,8 @@ Group(g, cx, T) ==
       rename == IF whole # 0 \/ cp = 0 THEN <<>> ELSE After(tok, cp)
       pl == Payload(g.dv)
   IN
-  IF ~cx.tmpl /\ ptxt \notin {<<>>, <<109>>, <<115>>} THEN REJF                  \* part: m or s [D]
-  ELSE IF ~cx.tmpl /\ cx.mb /\ ptxt = <<115>> THEN OPENF                          \* O6
+  IF ~cx.tmpl /\ cx.mb /\ ptxt \notin {<<>>, <<109>>} THEN OPENF                  \* O6: only master data exists here
+  ELSE IF ~cx.tmpl /\ ptxt \notin {<<>>, <<109>>, <<115>>} THEN REJF             \* part: m or s [D]
   ELSE IF tok = <<>> THEN REJF                                                   \* a field needs a type [D]
   ELSE IF HasCh(tok, SEMI) THEN OPENF                                            \* O6
   ELSE IF pl.k = "bad" THEN REJF
